@@ -8,8 +8,13 @@
                            argument is returned, which is what [Z.max a b] does ([Z.max] returns [a]
                            unless [a ?= b] is [Lt]); [Rmax a b] returns [b] on a tie, the same real;
       - equality test      a = b        is   [negb (ltb a b) && negb (ltb b a)]           ([geqb]);
-      - sums                            are right folds of [add] ending in [zero], as [sumZ] / [sumR]
-                                        ([gsum]); running sums start from [zero] as [cumsum];
+      - sums                            ([gsum]) are LEFT folds of [add] starting from the FIRST element,
+                                        ((x0 + x1) + x2) + ..., which is the order in which NumPy's
+                                        savings.sum(axis=1) / betas.sum() add fewer than 8 entries (one
+                                        element: the element itself; the empty sum is [zero]); over Z and R
+                                        this is [sumZ] / [sumR] by associativity and commutativity, on
+                                        binary64 it is the sum NumPy computes; running sums start from
+                                        [zero] as [cumsum];
       - the decreasing insertion sort, the decreasing argsort and the first-maximum argmax
         ([gargmax] of Model/Generic.v) are those of Model/Capa.v / Lib/Base.v.
 
@@ -43,7 +48,8 @@ Notation "x -! y" := (gsub x y) (at level 50, left associativity).
 Definition gtiny_le (c : V) : V -> bool := fun b => b <=! c.
 Definition gtiny_lt (c : V) : V -> bool := fun b => b <! c.
 
-Fixpoint gsum (l : list V) : V := match l with [] => zero N | x :: t => x +! gsum t end.
+Definition gsum (l : list V) : V :=
+  match l with [] => zero N | x :: t => fold_left (add N) t x end.
 
 (** ---------- penalise_savings (one row) ---------- *)
 
